@@ -7,6 +7,7 @@ import (
 
 	"github.com/gordian-engine/gordian/tm/tmconsensus"
 	"github.com/gordian-engine/gordian/tm/tmengine/internal/tmmirror"
+	"github.com/gordian-engine/gordian/tm/tmengine/internal/tmstate"
 )
 
 // The Mirror follows the state of the active validators on the network,
@@ -30,17 +31,23 @@ func NewMirror(ctx context.Context, log *slog.Logger, opts ...Opt) (Mirror, erro
 	// Note that we never start the Engine we instantiate.
 	var e Engine
 
+	// Most options also write to the state machine configuration.
+	// The standalone mirror has no state machine, so collect those writes in a scratch value.
+	var smc tmstate.StateMachineConfig
+
 	var err error
 	for _, opt := range opts {
-		err = errors.Join(opt(&e, nil))
+		err = errors.Join(err, opt(&e, &smc))
 	}
 	if err != nil {
 		return nil, err
 	}
 
 	cfg := e.mCfg
-	cfg.InitialHeight = e.genesis.InitialHeight
-	cfg.InitialValidatorSet = e.genesis.GenesisValidatorSet
+	if e.genesis != nil {
+		cfg.InitialHeight = e.genesis.InitialHeight
+		cfg.InitialValidatorSet = e.genesis.GenesisValidatorSet
+	}
 
 	if err := validateMirrorSettings(cfg); err != nil {
 		return nil, err
@@ -72,7 +79,10 @@ func validateMirrorSettings(cfg tmmirror.MirrorConfig) error {
 		err = errors.Join(err, errors.New("no validator store set (use tmengine.WithValidatorStore)"))
 	}
 
-	// TODO: validate InitialHeight and InitialValidators?
+	// TODO: validate InitialHeight?
+	if len(cfg.InitialValidatorSet.Validators) == 0 {
+		err = errors.Join(err, errors.New("no genesis validators set (use tmengine.WithGenesis)"))
+	}
 
 	if cfg.HashScheme == nil {
 		err = errors.Join(err, errors.New("no hash scheme set (use tmengine.WithHashScheme)"))
@@ -82,6 +92,10 @@ func validateMirrorSettings(cfg tmmirror.MirrorConfig) error {
 	}
 	if cfg.CommonMessageSignatureProofScheme == nil {
 		err = errors.Join(err, errors.New("no common message signature proof scheme set (use tmengine.WithCommonMessageSignatureProofScheme)"))
+	}
+
+	if cfg.Watchdog == nil {
+		err = errors.Join(err, errors.New("no watchdog set (use tmengine.WithWatchdog)"))
 	}
 
 	return err
